@@ -7,6 +7,7 @@ from ..model import own_nodes, RepoModel
 from ..callgraph import CallGraph
 from . import brownian_kit as bk
 
+DERIVED = "torchsde/_brownian/derived.py"
 BI = bk.BI
 PKG = "torchsde._brownian"
 
@@ -551,6 +552,41 @@ def r05_5(ctx, model=None, fixture=False):
     ctx.floor("R05.5", 1)
 
 
+def r05_7(ctx):
+    """The wrappers of torchsde/_brownian/derived.py (BrownianPath, BrownianTree, ReverseBrownian) are views of one
+    underlying Brownian object chosen at construction.  A wrapper that re-binds or replaces that object while answering a
+    query (growing it, rebuilding it with the 'same' entropy) answers later queries from a different path: an interval
+    sampled from a longer top-level interval is a different bridge.  Rule: in that module attribute stores on `self` occur
+    in constructors only."""
+    rep, model = ctx.rep, ctx.model
+    rep.rule("R05.7", "Brownian wrappers keep the underlying object they were built with: no attribute store outside "
+                      "constructors in torchsde/_brownian/derived.py")
+    n_fn = 0
+    for fi in model.functions.values():
+        if isinstance(fi.node, ast.Lambda) or fi.module.relpath != DERIVED or fi.cls is None:
+            continue
+        n_fn += 1
+        if fi.name == "__init__":
+            continue
+        rep.analysed(fi)
+        sname = fi.params[0] if fi.params else "self"
+        stores = [n for n in own_nodes(fi.node) if isinstance(n, ast.Attribute) and isinstance(n.ctx, (ast.Store, ast.Del))
+                  and isinstance(n.value, ast.Name) and n.value.id == sname]
+        stores += [c for c in astq.calls(fi) if astq.call_name(c) in ("setattr", "delattr") and c.args
+                   and isinstance(c.args[0], ast.Name) and c.args[0].id == sname]
+        construct = f"{fi.key}::R05.7::no-rebinding"
+        if stores:
+            st = stores[0]
+            rep.fail("R05.7", astq.loc(fi, st), construct,
+                     f"{fi.qualname} re-binds wrapper state (`{ast.unparse(astq.stmt_of(fi, st))[:80]}`) after construction: later "
+                     f"queries are answered by a different underlying Brownian object than earlier ones (not one path)")
+        else:
+            rep.ok("R05.7", astq.loc(fi), construct, "no attribute store")
+    if n_fn < 6:
+        raise AnalysisError(f"only {n_fn} wrapper methods found in {DERIVED}")
+    ctx.floor("R05.7", 5)
+
+
 # ------------------------------------------------------------------------------------------------ R05.6
 def r05_6(ctx):
     rep, model = ctx.rep, ctx.model
@@ -613,6 +649,7 @@ def run(ctx):
     ctx.guard(r05_4)
     ctx.guard(r05_5)
     ctx.guard(r05_6)
+    ctx.guard(r05_7)
     ctx.guard(run_fixtures)
     # start-independence of the decomposition: every activation of the tree search is a function of (node, ta, tb) only
     # and follows the specification that makes the result an ordered contiguous cover (case analysis R03.8)
